@@ -47,6 +47,14 @@ def confirm(v):
                 if 'panic' in r2:
                     return True, '%s with value=%r -> %s' % (t, val2, r2['panic'])
         return 'panic' in r, '%s with value=%r -> %s' % (t, val, r.get('panic', 'no panic'))
+    if site == 'resolve_timestamp':
+        pat = ''.join(chr(c) for c in v['value'])
+        ts = v.get('extra', {}).get('ts', 0)
+        r = d.call(op='resolve_ts', pattern=native.cps(pat), ts=ts)
+        if 'panic' not in r:
+            # through a schema component as the CLI reaches it
+            r = d.call(op='render', schema=[[{'var': 'Major'}], [], [{'ts': native.cps(pat)}]], vars={'major': 1, 'bumped_timestamp': ts}, fmt='semver')
+        return 'panic' in r, 'resolve_timestamp(%r, %d) -> %s' % (pat, ts, r.get('panic', 'no panic'))
     if site == 'get_custom_value':
         key = ''.join(chr(c) for c in v['value'])
         r = d.call(op='custom_value', key=native.cps(key))
@@ -242,7 +250,7 @@ def main():
     ck.bounds = dict(derive_short_hash='commit hashes of 0..%d chars over ASCII + non-ASCII representatives' % N,
                      template_functions='prefix/hash/hash_int with values of 0..3(4) chars and any length 0..40; sanitize with max_length 0..6; format_timestamp with EVERY format string of 0..3(4) chars (symbolic) and any second 1970-2199',
                      from_semver='%d pre-release identifier lists of length <= %d over {epoch, post, dev, alpha, rc, x, number}' % (len(shapes), 3 if quick else 4),
-                     custom_values='dotted keys of up to 4 (5) chars over {a,b,c,s,n,.,0,1,2,9,x} into a nested JSON object with an array, an object, a string and null', run_git_command='exit status symbolic; stdout / stderr bytes from menus of 7 x 6 answers incl. invalid UTF-8, padding, empty', branch_rules='default GitFlow rules and a short rule set on branch names with all-digit segments of 1..20 (21) digits and free names of 0..3 (5) chars', git_fault='get_vcs_data + vcs_data_to_zerv_vars against the C02 git stub (chains of 1..3 commits and a diamond, 3-4 tag menus with every placement symbolic), the git call with a solver-chosen index 0..40 fails', bump_overflow='each by-name bump with any u32 amount on start values up to 2^64-1; index bump of a uint literal up to 2^64-1')
+                     resolve_timestamp='EVERY pattern string of 0..3(4) chars, and of 0..2(3) chars behind a leading % (also %Y+1..2, %-+1), any second 1970-2199', custom_values='dotted keys of up to 4 (5) chars over {a,b,c,s,n,.,0,1,2,9,x} into a nested JSON object with an array, an object, a string and null', run_git_command='exit status symbolic; stdout / stderr bytes from menus of 7 x 6 answers incl. invalid UTF-8, padding, empty', branch_rules='default GitFlow rules and a short rule set on branch names with all-digit segments of 1..20 (21) digits and free names of 0..3 (5) chars', git_fault='get_vcs_data + vcs_data_to_zerv_vars against the C02 git stub (chains of 1..3 commits and a diamond, 3-4 tag menus with every placement symbolic), the git call with a solver-chosen index 0..40 fails', bump_overflow='each by-name bump with any u32 amount on start values up to 2^64-1; index bump of a uint literal up to 2^64-1')
     ck.outside = ['argument-vector parsing (clap), stdout/stderr separation and the exit status of the process', 'more than one failing git sub-command per run, git printing malformed output with a zero status', 'RON/JSON parsing of stdin (library code)',
                   'panic paths inside the other properties\' executions are reported by those checks']
     ck.assumptions = ['chrono strftime item validity mirrors StrftimeItems::parse_next_item of the locked chrono 0.4.43 (read from the registry source)', 'python std models']
@@ -252,6 +260,9 @@ def main():
     cands += ck.absorb('derive_short_hash never panics', ex, expect_tags=['returned'])
     ex = engine.explore('c13', 'path_fn', fn_args, jobs=ck.jobs, deadline=dl(600))
     cands += ck.absorb('template functions never panic', ex, expect_tags=['returned'])
+    ts_args = [('', n) for n in ((0, 1, 2, 3) if quick else (0, 1, 2, 3, 4))] + [('%', n) for n in ((0, 1, 2) if quick else (0, 1, 2, 3))] + [('%Y', 1), ('%Y', 2), ('%-', 1)]
+    ex = engine.explore('c13', 'path_resolve_ts', ts_args, jobs=ck.jobs, deadline=dl(600))
+    cands += ck.absorb('resolve_timestamp never panics, whatever the pattern text of a ts(…) component', ex, expect_tags=['ok', 'err'])
     ex = engine.explore('c13', 'path_from_semver', shapes, jobs=ck.jobs, deadline=dl(600))
     cands += ck.absorb('Zerv::from(SemVer) never panics on parser-producible records', ex, expect_tags=['returned'])
     ex = engine.explore('c13', 'path_bump_overflow', list(c05.NUMLEVELS), jobs=ck.jobs, deadline=dl(300))
